@@ -29,6 +29,7 @@ RULES = {
     "C09-R2": "per-message state is stored on every path from SCPI_Parse entry to the unit loop",
     "C09-R3": "every transient field read by the handler-facing API is stored on every path from the start of the unit iteration to the call-back invocation",
     "C09-R4": "every field of the scanner state is stored on every path of scpiParser_detectProgramMessageUnit",
+    "C09-H4": "an input overrun (-363) empties the input buffer before returning",
     "C09-H3": "after a line is executed the consumed bytes are removed: memmove length, position decrement and the restart offset are the same amount",
 }
 
@@ -383,6 +384,30 @@ def rule_h3(ck, prog):
     ck.analysed(fn)
 
 
+def rule_h4(ck, prog):
+    """an input overrun discards everything pending: the next message starts on an empty buffer"""
+    fn = prog.fn("SCPI_Input")
+    if fn is None:
+        return
+    pushes = [c for c in fn.calls() if (c.get("callee") or "").startswith("SCPI_ErrorPush") and C.const_of(K.arg(c, 1)) == -363]
+    st = K.site(fn, "overrun-discards-pending", 0)
+    if len(pushes) != 1:
+        ck.anchor_lost("C09-H4", "the -363 push of SCPI_Input (%d found)" % len(pushes))
+        return
+    pg = K.summaries(prog).pg(fn)
+    POS = "context->buffer.position"
+    resets = [n for n, t in C.stores(fn) if t.get("path") == POS and n.get("op") == "=" and C.const_of(n.child(1)) == 0]
+    blocked = lambda e: e.kind == "elem" and e.node in resets
+    before = pg.reachable([pg.entry], blocked_edge=blocked)
+    after = pg.reachable([pg.after(pushes[0])], blocked_edge=blocked)
+    if pg.before(pushes[0]) in before and pg.exit in after:
+        ck.violated("C09-H4", st, K.loc(fn, pushes[0]),
+                    "the overrun path returns without emptying the input buffer (no `position = 0`): the head of the over-long message "
+                    "stays pending and is glued in front of the next message")
+    else:
+        ck.holds("C09-H4", st, K.loc(fn, pushes[0]), "position = 0 on every path through the -363 branch")
+
+
 def run(ck, fb, tier):
     spec = K.load_spec("context_fields.json")
     for cfg in fb.configs:
@@ -393,6 +418,7 @@ def run(ck, fb, tier):
         rule_r2_r3(ck, prog, spec)
         rule_r4(ck, prog)
         rule_h3(ck, prog)
+        rule_h4(ck, prog)
     ck.trust("spec/context_fields.json classification of scpi_t fields (confirmed by reading)")
     ck.assume("handlers reach library state only through the context pointer")
 
